@@ -519,6 +519,27 @@ func main() {
 	R.Class("hedged/pairs that must share r (same key, entropy and e)", same)
 	R.Class("hedged/pairs that must not share r", diff)
 	R.Sample("hedged", map[string]any{"d": "n-1", "digest": mc.Hex(hd[0]), "entropy": "counter", "checks": "deterministic; 32 bytes consumed; 36 delivery modes give the same signature; fault after j<32 bytes => error, nil"})
+	// nil entropy source = crypto/rand: two signatures over the same (key, digest) must both be valid and must
+	// not share r (the only non-scripted reader; a false alarm needs a 2^-256 coincidence)
+	for _, d := range hk[:4] {
+		sk := lib.MkPriv(d)
+		r1, s1, _, e1 := sk.SignRaw(nil, hd[0])
+		r2, s2, _, e2 := sk.SignRaw(nil, hd[0])
+		R.T(2)
+		bad := ""
+		switch {
+		case e1 != nil || e2 != nil:
+			bad = "SignRaw(nil reader) failed"
+		case !ref.ECDSAVerify(ref.BaseMul(d), hd[0], ref.OS2IP(r1.Bytes()), ref.OS2IP(s1.Bytes())) || !ref.ECDSAVerify(ref.BaseMul(d), hd[0], ref.OS2IP(r2.Bytes()), ref.OS2IP(s2.Bytes())):
+			bad = "signature made with the default entropy source does not verify under the reference"
+		case bytes.Equal(r1.Bytes(), r2.Bytes()):
+			bad = "two signatures made with the default (crypto/rand) entropy source share r: the nonce does not depend on fresh entropy"
+		}
+		if bad != "" {
+			R.Fail("hedged/default entropy source", "misc", map[string]any{"d": mc.HexBig(d), "what": bad}, nil)
+		}
+	}
+	R.Class("hedged/default entropy source (crypto/rand) pairs", 4)
 	R.Note("digests differing only beyond byte 32, or by +n in the leftmost 32 bytes, are the same ECDSA message e and MUST sign identically; 'digest' in the statement is read as e for the collision oracle")
 	keysS := []string{}
 	for k := range map[string]bool{"a": true} {
